@@ -282,6 +282,38 @@ Inductive res := Ok | ErrDisabled | ErrNoWindow | ErrSanity | ErrNothing | ErrSi
 Definition tip_of (tail : commit) (tip : option commit) : commit :=
   match tip with Some k => k | None => tail end.
 
+(* updateLog.appendFeeUpdate (lnwallet/update_log.go): a fee update is merged IN
+   PLACE into the newest fee update of the log when that one has not yet been
+   committed on either chain (its index is not below any commitment's cut);
+   the update_fee message is sent either way.  Everything else is appended. *)
+Fixpoint last_fee_idx (l : list upd) (i : nat) (acc : option nat) : option nat :=
+  match l with
+  | [] => acc
+  | UFee _ :: r => last_fee_idx r (S i) (Some i)
+  | _ :: r => last_fee_idx r (S i) acc
+  end.
+
+Fixpoint replace_nth (n : nat) (l : list upd) (u : upd) : list upd :=
+  match l, n with
+  | [], _ => []
+  | _ :: r, O => u :: r
+  | x :: r, S n' => x :: replace_nth n' r u
+  end.
+
+Definition append_upd (log : list upd) (bound : nat) (u : upd) : list upd :=
+  match u with
+  | UFee _ =>
+    match last_fee_idx log 0 None with
+    | Some j => if Nat.leb bound j then replace_nth j log u else log ++ [u]
+    | None => log ++ [u]
+    end
+  | _ => log ++ [u]
+  end.
+
+(* number of entries of [who]'s log already covered by some commitment held by x *)
+Definition committed_bound (who : bool) (x : party) : nat :=
+  Nat.max (n_of who (tip_of (lTail x) (lTip x))) (n_of who (tip_of (rTail x) (rTip x))).
+
 (* SignNextCommitment by p: remote commitment (owner = negb p) including all own
    updates and the peer updates p has acked (those in its local tail). *)
 Definition do_sign (c : cfg) (p : bool) (x : party) : res * party * option msg :=
@@ -350,7 +382,8 @@ Definition step (c : cfg) (s : sys) (o : op) : res * sys :=
   | OSend p u =>
     let x := get s p in
     if upd_enabled c p x u then
-      let x' := mkParty (own x ++ [u]) (peer x) (lTail x) (lTip x) (rTail x) (rTip x) in
+      let x' := mkParty (append_upd (own x) (committed_bound p x) u) (peer x)
+                        (lTail x) (lTip x) (rTail x) (rTip x) in
       (Ok, set_outq (set s p x') p (outq s p ++ [MUpd u]))
     else (ErrDisabled, s)
   | OSign p =>
@@ -370,7 +403,8 @@ Definition step (c : cfg) (s : sys) (o : op) : res * sys :=
       let x := get s p in
       match m with
       | MUpd u =>
-        let x' := mkParty (own x) (peer x ++ [u]) (lTail x) (lTip x) (rTail x) (rTip x) in
+        let x' := mkParty (own x) (append_upd (peer x) (committed_bound (negb p) x) u)
+                          (lTail x) (lTip x) (rTail x) (rTip x) in
         (Ok, set_outq (set s p x') (negb p) q)
       | MSig k =>
         match do_recv_sig c p x k with
